@@ -14,6 +14,9 @@ var shareLists = [][]string{
 	// inside a shared prefix must not poison what later rules read for that prefix
 	{"hexDecode"}, {"hexDecode", "lowercase"}, {"hexDecode", "lowercase", "trim"}, {"lowercase", "hexDecode"}, {"lowercase", "hexDecode", "length"},
 	{"trim", "hexDecode"}, {"trim", "hexDecode", "uppercase"},
+	// round trips: the final value equals the input for some values while an intermediate value differs (what a
+	// multiMatch rule must still see, whatever an earlier rule with the same list left in the cache)
+	{"uppercase", "lowercase"}, {"lowercase", "uppercase"}, {"hexEncode", "hexDecode"}, {"trim", "uppercase", "lowercase"},
 }
 
 var shareNames = []string{"a", "A", "b", "c", "ab", "a", "b", ""}
@@ -103,11 +106,13 @@ func ShareProgram(r R) *sl.Program {
 	for i := 0; i < n; i++ {
 		id := 100 + i
 		rule := &sl.Rule{ID: id, Phase: phase, Severity: -1, Targets: shareTarget(r, false), Trans: Pick(r, fam), Op: shareOp(r, fmt.Sprintf("t%d", id))}
+		rule.MultiMatch = Chance(r, 0.2)
 		if Chance(r, 0.35) {
 			cur := rule
 			links := 1 + r.IntN(2)
 			for l := 1; l <= links; l++ {
 				cur.Chain = &sl.Rule{Phase: phase, Severity: -1, Targets: shareTarget(r, true), Trans: Pick(r, fam), Op: shareOp(r, fmt.Sprintf("t%d_%d", id, l))}
+				cur.Chain.MultiMatch = Chance(r, 0.15)
 				cur = cur.Chain
 			}
 		}
